@@ -53,12 +53,14 @@ def run(rep, tier, seed, replay):
             found = True
             rep.violation({"kind": "stress", "oracle": what, "case": {"line": cases[i], "format": "seed connections faults (harness c02 -in <file>)"}, "impl": impl[i], "failing_cases": len(bad)})
     # a node that answers very late (3.3 s): the request gets exactly one reply, the node's (C01's framing run, this one case)
-    res = differential(rep, PROP, "c01frame", seed, 0, tier, replay_cases=["0 tok%d_late late # -" % seed], model_modes=[])
+    # ... and a pipeline whose last request is answered by the filter chain (compression enabled, APPEND): no request is left waiting
+    res = differential(rep, PROP, "c01frame", seed, 0, tier, replay_cases=["0 tok%d_late late # -" % seed, "0 tok%d_filtered filtered # -" % seed], model_modes=[])
     late_bad = [i for i in range(len(res["cases"])) if res["impl"][i] != "replies=1"]
-    add_corr(rep, "A request answered by its node after 3.3 s gets exactly that one reply", res, late_bad, 1)
+    add_corr(rep, "A request answered by its node after 3.3 s gets exactly that one reply; a pipeline ending in a request the filter chain answers leaves nothing waiting", res, late_bad, 2)
     if late_bad and not found:
         found = True
-        rep.violation({"kind": "input", "oracle": "one reply, the node's own, for a request whose node answers after 3.3 s; observed: " + res["impl"][late_bad[0]],
+        rep.violation({"kind": "input", "oracle": ("one reply, the node's own, for a request whose node answers after 3.3 s" if " late " in res["cases"][late_bad[0]] else
+                                                  "GET k / APPEND k x pipelined with compression enabled: both replies within two seconds") + "; observed: " + res["impl"][late_bad[0]],
                        "case": {"line": res["cases"][late_bad[0]], "format": "harness c01frame -in <file>"}, "impl": res["impl"][late_bad[0]], "failing_cases": 1})
     if not pr["ok"] and not found:
         rep.violation({"kind": "broken-tie", "theorem": pr.get("broken"), "detail": pr.get("tail"), "searched": "no hang, no crash, no reordering under stress"}, found_input=False)
